@@ -95,6 +95,13 @@ func (env *Env) callExpr(c *ast.CallExpr) Value {
 			env.fail("addr(%s): not a variable living in memory at this point", id.Name)
 		}
 		return p
+	case "deepEqual": // the model's reflect.DeepEqual on two interface values (uninterpreted; true for identical values)
+		a, b := arg(0), arg(1)
+		if kindOf(a.T) != kIface || kindOf(b.T) != kIface {
+			env.fail("deepEqual takes two interface values")
+		}
+		env.x.declareFun("deep_equal", []string{sInt, sInt, sInt, sInt}, sBool)
+		return Value{T: tBool, S: or(valuesEqual(a, b), deepEqualTerm(a, b))}
 	case "isnil":
 		return Value{T: tBool, S: nilTest(arg(0))}
 	case "nonnil":
